@@ -85,3 +85,53 @@ Lemma gapfill_instance :
     Forall2 (is_item dec_mini s) (chunks_at w_with_gapfill 4) burst_w /\
     tiles 3 burst_w (5 + 1) /\ forallb item_dup burst_w = true /\ has_gap burst_w = true.
 Proof. apply instance_sound. vm_compute. reflexivity. Qed.
+
+(* ---- the gap is revealed by the counterparty's own ResendRequest, which the session also serves -------------------- *)
+Lemma rr_reveals_recovers :
+  let '(ops, tr) := run_mini w_rr_reveals in
+  c20_ok mini w_rr_reveals ops tr = true /\ c20_class ops tr = 0 /\
+  recvs tr = [1; 2; 3; 3; 4; 5; 6; 7] /\ states tr = [5; 1; 1; 1; 1; 1; 1; 1].
+Proof. vm_compute. repeat split. Qed.
+
+Definition burst_rr : list bitem := [BApp [68] 3 true; BGap 4 5].
+
+(* state continuous (NOT resend_request_sent), one ahead of position 3 *)
+Definition rr_check (so : option sess) (c5 : list bytes) : bool :=
+  match so with
+  | Some s =>
+    s_reader s && s_active s && negb (s_shutdown s) && (s_state s =? st_continuous) && (s_next_recv s =? 3 + 1) &&
+    match items_of dec_mini s c5 with Some l => bitems_eqb l burst_rr | None => false end &&
+    tilesb 3 burst_rr (4 + 1)
+  | None => false
+  end.
+
+Lemma rr_check_sound : forall so c5, rr_check so c5 = true ->
+  exists s, so = Some s /\ good s /\ ahead s 3 /\ s_state s = st_continuous /\
+            Forall2 (is_item dec_mini s) c5 burst_rr /\ tiles 3 burst_rr (4 + 1) /\
+            forallb item_dup burst_rr = true /\ has_gap burst_rr = true.
+Proof.
+  intros so c5 H. unfold rr_check in H. destruct so as [s|]; [|discriminate]. exists s.
+  apply andb_true_iff in H; destruct H as [H T]. apply andb_true_iff in H; destruct H as [H I].
+  apply andb_true_iff in H; destruct H as [H N]. apply andb_true_iff in H; destruct H as [H St].
+  apply andb_true_iff in H; destruct H as [H Sh]. apply andb_true_iff in H; destruct H as [R A].
+  apply negb_true_iff in Sh. apply N.eqb_eq in St. apply N.eqb_eq in N.
+  destruct (items_of dec_mini s c5) as [l|] eqn:E; [|discriminate]. apply bitems_eqb_eq in I. subst l.
+  split; [reflexivity|]. split; [split; [exact R|split; [exact A|split; [exact Sh|left; exact St]]]|].
+  split; [split; [left; exact St|exact N]|]. split; [exact St|].
+  split; [apply items_of_sound; exact E|]. split; [apply tilesb_sound; exact T|]. split; reflexivity.
+Qed.
+
+Lemma rr_instance :
+  exists s, s_after_rr = Some s /\ good s /\ ahead s 3 /\ s_state s = st_continuous /\
+            Forall2 (is_item dec_mini s) (chunks_at w_rr_reveals 5) burst_rr /\ tiles 3 burst_rr (4 + 1) /\
+            forallb item_dup burst_rr = true /\ has_gap burst_rr = true.
+Proof. apply rr_check_sound. vm_compute. reflexivity. Qed.
+
+Lemma rr_example :
+  (let '(ops, tr) := run_mini w_rr_reveals in
+   c20_ok mini w_rr_reveals ops tr = true /\ c20_class ops tr = 0 /\
+   recvs tr = [1; 2; 3; 3; 4; 5; 6; 7] /\ states tr = [5; 1; 1; 1; 1; 1; 1; 1]) /\
+  (exists s, s_after_rr = Some s /\ good s /\ ahead s 3 /\ s_state s = st_continuous /\
+             Forall2 (is_item dec_mini s) (chunks_at w_rr_reveals 5) burst_rr /\ tiles 3 burst_rr (4 + 1) /\
+             forallb item_dup burst_rr = true /\ has_gap burst_rr = true).
+Proof. exact (conj rr_reveals_recovers rr_instance). Qed.
